@@ -212,4 +212,108 @@ theorem ppos_eq (n : Nat) (cst : α) (h0 : 0 ≤ cst) (h1 : cst ≤ 1 / 2) :
   unfold ppos
   rw [if_neg (not_or.mpr ⟨not_lt.mpr h0, not_lt.mpr h1⟩)]
 
+/-! ### pareto front -/
+
+/-- row `rj` is strictly better (for orientation `o`) than row `ri` in every coordinate that is
+present in both rows -/
+def StrictlyBetter (o : α) (rj ri : List (Option α)) : Prop :=
+  ∀ (k : Nat) (a b : α), rj[k]? = some (some a) → ri[k]? = some (some b) → 0 < o * (a - b)
+
+/-- point `i` is dominated: another point is strictly better in every non-missing coordinate -/
+def Dominated (o : α) (d : List (List (Option α))) (i : Nat) : Prop :=
+  ∃ j ri rj, j ≠ i ∧ d[i]? = some ri ∧ d[j]? = some rj ∧ StrictlyBetter o rj ri
+
+theorem domBy_iff (o : α) (rj ri : List (Option α)) : domBy o rj ri = true ↔ StrictlyBetter o rj ri := by
+  induction rj generalizing ri with
+  | nil => simp [domBy, StrictlyBetter]
+  | cons x xs ih =>
+    cases ri with
+    | nil => simp [domBy, StrictlyBetter]
+    | cons y ys =>
+      have ih' := ih ys
+      unfold domBy at ih' ⊢
+      simp only [List.zipWith_cons_cons, List.all_cons, Bool.and_eq_true, ih']
+      unfold StrictlyBetter
+      constructor
+      · rintro ⟨h0, hrest⟩ k a b ha hb
+        cases k with
+        | zero =>
+          simp only [List.getElem?_cons_zero, Option.some.injEq] at ha hb
+          subst ha hb
+          simpa using h0
+        | succ k => exact hrest k a b (by simpa using ha) (by simpa using hb)
+      · intro h
+        refine ⟨?_, fun k a b ha hb => h (k + 1) a b (by simpa using ha) (by simpa using hb)⟩
+        cases x with
+        | none => simp
+        | some a =>
+          cases y with
+          | none => simp
+          | some b => simpa using h 0 a b rfl rfl
+
+theorem isDominatedAt_iff (o : α) (d : List (List (Option α))) (i : Nat) :
+    isDominatedAt o d i = true ↔ Dominated o d i := by
+  unfold isDominatedAt Dominated
+  cases hi : d[i]? with
+  | none => simp
+  | some ri =>
+    simp only [List.any_eq_true, List.mem_range, Bool.and_eq_true, bne_iff_ne, ne_eq]
+    constructor
+    · rintro ⟨j, hj, hne, hd⟩
+      cases hdj : d[j]? with
+      | none => simp [hdj] at hd
+      | some rj =>
+        simp only [hdj] at hd
+        exact ⟨j, ri, rj, hne, rfl, hdj, (domBy_iff o rj ri).mp hd⟩
+    · rintro ⟨j, ri', rj, hne, hri, hrj, hb⟩
+      injection hri with hri
+      subst hri
+      have hj : j < d.length := by
+        by_contra hcon
+        rw [List.getElem?_eq_none (by omega)] at hrj
+        cases hrj
+      refine ⟨j, hj, hne, ?_⟩
+      simp only [hrj]
+      exact (domBy_iff o rj ri).mpr hb
+
+theorem domBy_neg (o : α) (rj ri : List (Option α)) :
+    domBy (-o) rj ri = domBy o (rj.map fun x => x.map fun v => -v) (ri.map fun x => x.map fun v => -v) := by
+  induction rj generalizing ri with
+  | nil => simp [domBy]
+  | cons x xs ih =>
+    cases ri with
+    | nil => simp [domBy]
+    | cons y ys =>
+      have ih' := ih ys
+      unfold domBy at ih' ⊢
+      simp only [List.map_cons, List.zipWith_cons_cons, List.all_cons, ih']
+      congr 1
+      cases x with
+      | none => simp
+      | some a =>
+        cases y with
+        | none => simp
+        | some b =>
+          simp only [Option.map_some, id_eq, decide_eq_decide]
+          have : -o * (a - b) = o * (-a - -b) := by ring
+          rw [this]
+
+/-- a finite non-empty family of keys has a largest one -/
+theorem exists_max_index (f : Nat → α) (n : Nat) (hn : 0 < n) : ∃ i, i < n ∧ ∀ j, j < n → f j ≤ f i := by
+  induction n with
+  | zero => omega
+  | succ m ih =>
+    rcases Nat.eq_zero_or_pos m with rfl | hm
+    · exact ⟨0, by omega, fun j hj => le_of_eq (congrArg f (by omega))⟩
+    · obtain ⟨i, hi, hmax⟩ := ih hm
+      by_cases h : f i ≤ f m
+      · refine ⟨m, by omega, fun j hj => ?_⟩
+        rcases Nat.lt_succ_iff_lt_or_eq.mp hj with hj | rfl
+        · exact le_trans (hmax j hj) h
+        · exact le_refl _
+      · refine ⟨i, by omega, fun j hj => ?_⟩
+        rcases Nat.lt_succ_iff_lt_or_eq.mp hj with hj | rfl
+        · exact hmax j hj
+        · exact le_of_lt (not_le.mp h)
+
 end HydroVerif.C20
